@@ -36,6 +36,10 @@ type descriptor struct {
 	// exclusive one): only the winner's token ever arrives, the withdrawn
 	// alternatives must not keep the join waiting
 	IncMerge bool `json:"incMerge,omitempty"`
+	// TwoTokens: a parallel fork sends two tokens into the gateway at once; each
+	// activation decides for itself (one event continues BOTH tokens waiting at
+	// the matching catch event and withdraws both tokens' other alternatives)
+	TwoTokens bool `json:"twoTokens,omitempty"`
 }
 
 const timerExpr = "PT10S"
@@ -62,6 +66,12 @@ func build(d descriptor) *gen.Graph {
 		cur = b.Add(gen.KStart)
 	}
 	eg := b.Add(gen.KEbg)
+	if d.TwoTokens {
+		fork := b.Add(gen.KPar)
+		b.Connect(cur, fork)
+		b.Connect(fork, eg)
+		cur = fork
+	}
 	b.Connect(cur, eg)
 	var mrg *gen.Node
 	if d.Merge {
@@ -105,6 +115,7 @@ func draw(rt *rapid.T) descriptor {
 	d.Timer = rapid.IntRange(0, 2).Draw(rt, "timerAlt") == 0
 	d.InSub = rapid.SampledFrom([]int{0, 0, 0, 1, 2}).Draw(rt, "inSub")
 	d.IncMerge = d.Merge && rapid.IntRange(0, 2).Draw(rt, "incMerge") == 0
+	d.TwoTokens = !d.IncMerge && rapid.IntRange(0, 4).Draw(rt, "twoTokens") == 0
 	for i := 0; i < n; i++ {
 		ref := fmt.Sprintf("a%d", i)
 		if d.Timer && i == n-1 {
@@ -120,7 +131,10 @@ func draw(rt *rapid.T) descriptor {
 			d.Alts = append(d.Alts, gen.EventDef{Kind: "message", Ref: ref, Op: "op"})
 		}
 	}
-	noConcurrent := rec.Exclude("C06-F1")
+	// (two tokens: with two activations deciding independently, two events
+	// delivered at the same time may each win one of them - allowed, but not an
+	// outcome of any serial order of the events; such cases get no concurrent pairs)
+	noConcurrent := rec.Exclude("C06-F1") || d.TwoTokens
 	maxLate := 6
 	if rec.Exclude("C06-F2") {
 		maxLate = 0
@@ -273,6 +287,9 @@ func classify(d descriptor, out *drive.ScriptOutcome) (cls []string, nt bool) {
 	}
 	if d.IncMerge {
 		cls = append(cls, "inclusiveMerge")
+	}
+	if d.TwoTokens {
+		cls = append(cls, "twoTokensAtTheGateway")
 	}
 	if timerRace {
 		cls = append(cls, "timerDueDuringConcurrentDelivery")
